@@ -153,6 +153,20 @@ class Run:
         if self.write:
             self._write_evidence(status, len(violations), knowns, wall)
         if not self.quiet:
+            try:
+                self._print_report(out, knowns, violations, wall)
+            except BrokenPipeError:      # reader closed the pipe: verdict stands
+                try:
+                    sys.stdout = open(os.devnull, "w")
+                except OSError:
+                    pass
+        self.status = status
+        self.violations = violations
+        self.knowns = knowns
+        return status
+
+    def _print_report(self, out, knowns, violations, wall):
+        if True:
             print(f"[{self.prop}] tier={self.tier} obligations={self.obligations} "
                   f"discharged={self.discharged} findings={len(self.findings)} "
                   f"(known {len(knowns)}, new {len(violations)}) "
@@ -163,10 +177,6 @@ class Run:
             for line in out:
                 print(line)
             sys.stdout.flush()
-        self.status = status
-        self.violations = violations
-        self.knowns = knowns
-        return status
 
     def _write_evidence(self, status, nviol, knowns, wall):
         edir = os.path.join(VERIF, "evidence")
